@@ -508,6 +508,29 @@ public:
             }
             if (const Stmt* L = B->getLabel()) {
                 if (auto* LS = dyn_cast<LabelStmt>(L)) BOj["label"] = LS->getDecl()->getNameAsString();
+                // switch arms: the constant of the case label (lowered to comparisons by yk/inline.py)
+                if (auto* CS = dyn_cast<CaseStmt>(L)) {
+                    llvm::json::Object CO;
+                    const Expr* LHS = CS->getLHS();
+                    Expr::EvalResult ER;
+                    if (LHS && !LHS->isValueDependent() && LHS->EvaluateAsInt(ER, Ctx)) {
+                        llvm::SmallString<32> Str;
+                        ER.Val.getInt().toString(Str, 10);
+                        CO["cv"] = Str.str().str();
+                    }
+                    if (LHS) {
+                        const Expr* E = LHS->IgnoreParenImpCasts();
+                        if (auto* CE = dyn_cast<ConstantExpr>(E)) E = CE->getSubExpr()->IgnoreParenImpCasts();
+                        if (auto* DR = dyn_cast<DeclRefExpr>(E))
+                            if (auto* EC = dyn_cast<EnumConstantDecl>(DR->getDecl()))
+                                CO["enum"] = EC->getQualifiedNameAsString();
+                        CO["ty"] = tyStr(LHS->getType());
+                    }
+                    CO["range"] = CS->caseStmtIsGNURange();
+                    CO["loc"] = locStr(CS->getBeginLoc());
+                    BOj["case"] = std::move(CO);
+                }
+                if (isa<DefaultStmt>(L)) BOj["default"] = true;
             }
             Blocks[std::to_string(B->getBlockID())] = std::move(BOj);
         }
